@@ -52,9 +52,9 @@ def e1_conds(tier: str) -> List[Cond]:
         for (lo, ln) in halves:
             hi = min(lo + ln, S)
             conds.append(Cond(oid=f"glycan-roundtrip/first={H.SACCH[g0]}/second={lo}-{hi - 1}", clause="write_glycan_formula -> parse_glycan_formula returns the counts it was written from (unambiguous forms)",
-                              module="vf.h.c15", func="o_glycan_roundtrip", shape=dict(n=2, g0=g0, c0=2), sym=[("sepi", "int"), ("g1", "int"), ("c1", "int")],
-                              pre=["0 <= sepi <= 2", f"{lo} <= g1 < {hi}", "c1 in (1, 3)", f"g1 != {g0}"], timeout=t, functions=FUNCS[7:],
-                              bounds=f"first monosaccharide fixed, second from the table[{lo}:{hi}], counts, three separators"))
+                              module="vf.h.c15", func="o_glycan_roundtrip", shape=dict(n=2, g0=g0, c0=(2, 0, -1, 7)[g0 % 4]), sym=[("sepi", "int"), ("g1", "int"), ("c1", "int")],
+                              pre=["0 <= sepi <= 2", f"{lo} <= g1 < {hi}", "c1 in (-2, 0, 1, 3, 12)", f"g1 != {g0}"], timeout=t, functions=FUNCS[7:],
+                              bounds=f"first monosaccharide fixed (count 2, 0, -1 or 7 by its index), second from the table[{lo}:{hi}] with count in {{-2,0,1,3,12}}, three separators"))
     return conds
 
 
